@@ -71,6 +71,7 @@ func runC09_7(c *core.Ctx) {
 		})
 		for k, s := range sites {
 			s := s
+			cntVars := taintedBy(f.Info, f.Decl.Body, s.cnt)
 			construct := s.kind + "(rb.buf[…]) #" + itoa(k+1) + " settled"
 			const (
 				sIdle = iota
@@ -111,8 +112,10 @@ func runC09_7(c *core.Ctx) {
 							if j < len(y.Rhs) {
 								rhs = y.Rhs[j]
 							}
-							if mentions(f, rhs, s.cnt) {
-								st = sIdle
+							for cv := range cntVars {
+								if mentions(f, rhs, cv) {
+									st = sIdle
+								}
 							}
 						}
 					}
